@@ -128,10 +128,23 @@ def tester_states(sysname, spec):
     return [make_state(c, rand_density(rnd, c.dim), True) for _ in range(spec[2])]
 
 
-def build_tomo(kind, sysname, eq, tst_states, tst_povms, mo, fresh=False):
+def make_schedules(kind, sched):
+    """sched: None (= "all") or a list - QST: tester POVM indices; POVMT: tester state indices; QPT / QMPT: [state index, POVM index] pairs.
+    user-defined schedules may permute, repeat or leave out testers"""
+    if sched is None:
+        return "all"
+    if kind == "qst":
+        return [[("state", 0), ("povm", int(j))] for j in sched]
+    if kind == "povmt":
+        return [[("state", int(i)), ("povm", 0)] for i in sched]
+    mid = "gate" if kind == "qpt" else "mprocess"
+    return [[("state", int(i)), (mid, 0), ("povm", int(j))] for i, j in sched]
+
+
+def build_tomo(kind, sysname, eq, tst_states, tst_povms, mo, fresh=False, sched=None):
     """returns the quara tomography object (cached unless fresh=True: then a NEW object nobody has called yet).
     mo = number of outcomes of the estimated POVM / MProcess."""
-    key = ("tomo", kind, sysname, bool(eq), repr(tst_states), repr(tst_povms), mo)
+    key = ("tomo", kind, sysname, bool(eq), repr(tst_states), repr(tst_povms), mo, repr(sched))
     if key in _cache and not fresh:
         return _cache[key]
     from quara.protocol.qtomography.standard.standard_qst import StandardQst
@@ -139,13 +152,13 @@ def build_tomo(kind, sysname, eq, tst_states, tst_povms, mo, fresh=False):
     from quara.protocol.qtomography.standard.standard_qpt import StandardQpt
     from quara.protocol.qtomography.standard.standard_qmpt import StandardQmpt
     if kind == "qst":
-        t = StandardQst(tester_povms(sysname, tst_povms), on_para_eq_constraint=eq)
+        t = StandardQst(tester_povms(sysname, tst_povms), on_para_eq_constraint=eq, schedules=make_schedules(kind, sched))
     elif kind == "povmt":
-        t = StandardPovmt(tester_states(sysname, tst_states), num_outcomes=mo, on_para_eq_constraint=eq)
+        t = StandardPovmt(tester_states(sysname, tst_states), num_outcomes=mo, on_para_eq_constraint=eq, schedules=make_schedules(kind, sched))
     elif kind == "qpt":
-        t = StandardQpt(tester_states(sysname, tst_states), tester_povms(sysname, tst_povms), on_para_eq_constraint=eq)
+        t = StandardQpt(tester_states(sysname, tst_states), tester_povms(sysname, tst_povms), on_para_eq_constraint=eq, schedules=make_schedules(kind, sched))
     else:
-        t = StandardQmpt(tester_states(sysname, tst_states), tester_povms(sysname, tst_povms), num_outcomes=mo, on_para_eq_constraint=eq)
+        t = StandardQmpt(tester_states(sysname, tst_states), tester_povms(sysname, tst_povms), num_outcomes=mo, on_para_eq_constraint=eq, schedules=make_schedules(kind, sched))
     if not fresh:
         _cache[key] = t
     return t
